@@ -62,6 +62,35 @@ def eval_kind_cond(e, kind, subject=None):
     return None
 
 
+def kind_edge_filter(cfg, kind, subject):
+    """skip_edges callable for CFG.reachable_from: drops the edges that cannot be taken while
+    `<subject>` (a path like 'node.kind') equals `kind`: arms of a switch over the subject that
+    are labelled with another enumerator, and the refuted branch of every condition decided by
+    the kind alone."""
+    named = {}
+
+    def skip(v, w, lab):
+        cn = cfg.nodes[v]
+        if cn.kind != 'cond' or cn.ast is None:
+            return False
+        if isinstance(lab, str) and lab.startswith('case:'):
+            if member_path(strip_casts(cn.ast)) != subject:
+                return False
+            if v not in named:
+                named[v] = {l[5:] for (_, l) in cfg.succ[v] if isinstance(l, str) and l.startswith('case:')}
+            l = lab[5:]
+            if l in ('default', '<none>'):
+                return kind in named[v]
+            return l != kind
+        if lab is True or lab is False:
+            val = eval_kind_cond(cn.ast, kind, subject)
+            if val is not None:
+                return val != lab
+        return False
+    return skip
+
+
+
 def specialise_expr(e, kind, subject=None):
     """resolve `kind-test ? a : b` inside an expression"""
     if e is None:
